@@ -268,6 +268,7 @@ func c04Case(g *Gen, p addchain.Program) {
 
 func c16Case(g *Gen, p addchain.Program) {
 	bld := "panic"
+	bld2 := ""
 	safe(func() {
 		prog, err := acc.Decompile(p)
 		if err != nil {
@@ -280,8 +281,21 @@ func c16Case(g *Gen, p addchain.Program) {
 			return
 		}
 		bld = scriptDump(ch)
+		// history: building the same program again (acc.String followed by acc.Save, fmt -b
+		// after gen, ...) must give the same script — the passes cache their results on the
+		// program and must not disturb them
+		ch2, err := acc.Build(prog)
+		if err != nil {
+			bld2 = "err"
+			return
+		}
+		bld2 = scriptDump(ch2)
 	})
 	g.Line("c16", encOps(p), bld)
+	if bld2 != "" && bld2 != bld {
+		g.Line("c16", encOps(p), bld2)
+		g.Count("second-build-differs")
+	}
 }
 
 // c04Enum calls f on every program of exactly length n whose operands are in range (op k reads
